@@ -2,7 +2,9 @@
    Statements only. *)
 From Coq Require Import List ZArith Bool.
 From BB.Model Require Import Cleaner Buffer.
-From BB.Proofs Require Cleaner Buffer.
+From BB.Model Require GoFrag.
+From BB.Gen Require ImplCleaners.
+From BB.Proofs Require Cleaner Buffer CleanerGen.
 Import ListNotations.
 Open Scope Z_scope.
 
@@ -38,6 +40,23 @@ Theorem C03_shift_is_clamped : forall len shift,
   0 <= r <= len /\ (0 <= shift <= len -> r = shift) /\ (shift < 0 -> r = 0) /\ (shift > len -> r = len).
 Proof. exact Proofs.Cleaner.clamp_shift_spec. Qed.
 Print Assumptions C03_shift_is_clamped.
+
+(* ---- the tie for the cleaner functions is a translation, not a sample: the functions AS WRITTEN IN THE CURRENT SOURCE
+   (coq/Gen/ImplCleaners.v, printed from bigbuff.go by harness/cmd/gotr on every run; [GoFrag.call] is the interpreter of the
+   Go fragment they are written in) compute the model functions above, for every input ------------------------------------ *)
+Theorem C03_DefaultCleaner_source_is_model : forall size offsets,
+  GoFrag.call [] BB.Gen.ImplCleaners.DefaultCleaner_def [GoFrag.VInt size; GoFrag.VList offsets]
+  = Some (GoFrag.VInt (default_cleaner size offsets)).
+Proof. exact Proofs.CleanerGen.DefaultCleaner_src_eq_model. Qed.
+Print Assumptions C03_DefaultCleaner_source_is_model.
+
+(* FixedBufferCleaner(max, target, callback)(size, offsets), with a nil or a non-nil callback (called for effect only) *)
+Theorem C03_FixedBufferCleaner_source_is_model : forall max target cb size offsets,
+  GoFrag.call Proofs.CleanerGen.fe1 BB.Gen.ImplCleaners.FixedBufferCleaner_def
+    [GoFrag.VInt max; GoFrag.VInt target; GoFrag.VFunc cb; GoFrag.VInt size; GoFrag.VList offsets]
+  = Some (GoFrag.VInt (fixed_cleaner max target size offsets)).
+Proof. exact Proofs.CleanerGen.FixedBufferCleaner_src_eq_model. Qed.
+Print Assumptions C03_FixedBufferCleaner_source_is_model.
 
 Close Scope Z_scope.
 
